@@ -699,7 +699,12 @@ def load_func_for_dataclass(
 
                             with fn_gen.except_(KeyError):
                                 # Else, we see an unknown field in the dictionary object
-                                fn_gen.add_line("field = json_to_field[json_key] = ExplicitNull")
+                                if meta.raise_on_unknown_json_key:
+                                    # Don't cache the (unknown) JSON key here, so that
+                                    # an error is raised each time we encounter it.
+                                    fn_gen.add_line("field = ExplicitNull")
+                                else:
+                                    fn_gen.add_line("field = json_to_field[json_key] = ExplicitNull")
                                 fn_gen.add_line("LOG.warning('JSON field %r missing from dataclass schema, "
                                                 "class=%r, parsed field=%r',json_key,cls,py_field)")
 
